@@ -221,7 +221,16 @@ pub fn eval_variable_simple(
         match query.hierarchy[0].as_ref()
         {
             "$" | "pc" => return Ok(expr::Value::Unknown),
-            _ => {}
+
+            // Built-in functions take precedence over
+            // symbols, as they do in `eval_variable`
+            name =>
+            {
+                if let Some(_) = asm::resolver::resolve_builtin_fn(name)
+                {
+                    return Ok(expr::Value::AsmBuiltInFunction(name.to_string()));
+                }
+            }
         }
     }
 
